@@ -90,7 +90,7 @@ def source_hash(repo):
     return hsh.hexdigest()
 
 
-def build(flavour, quiet=True, repo=None):
+def build(flavour, quiet=True, repo=None, copy_to=None):
     """Build (or refresh) one flavour from the repo working tree; returns the binary path.
 
     Raises BuildError when cargo fails; callers map that to an *inconclusive* run, never to a
@@ -128,6 +128,13 @@ def build(flavour, quiet=True, repo=None):
         if proc.returncode == 0:
             with open(stamp, "w") as f:
                 f.write(want)
+            if copy_to and os.path.exists(binary_path(flavour)):
+                # a private copy taken under the build lock: a concurrent rebuild (another check, a changed tree)
+                # can then neither remove nor replace the binary this run is using
+                os.makedirs(copy_to, exist_ok=True)
+                private = os.path.join(copy_to, "blockwatch-" + flavour)
+                import shutil
+                shutil.copy2(binary_path(flavour), private)
     if proc.returncode != 0:
         raise BuildError("cargo build (%s) failed:\n%s" % (flavour, proc.stdout[-4000:]))
     path = binary_path(flavour)
@@ -135,6 +142,8 @@ def build(flavour, quiet=True, repo=None):
         raise BuildError("binary missing after build: " + path)
     if not quiet:
         sys.stderr.write("[build] %s ok in %.1fs -> %s\n" % (flavour, time.time() - t0, path))
+    if copy_to:
+        return os.path.join(copy_to, "blockwatch-" + flavour)
     return path
 
 
